@@ -367,6 +367,12 @@ def bounded_webvtt(ctx, b):
     # (a text node without a layout takes the caption's: next to a node with its own layout it is a different layout)
     seqs = [(sq, wb) for sq in itertools.product([la, lb], repeat=4) for wb in (True, False)] + \
            [(sq, wb) for sq in itertools.product([la, lb, None], repeat=3) for wb in (True, False) if None in sq]
+    # layouts that differ only in what a WebVTT cue cannot say (the vertical alignment, the height of the extent) are
+    # different layouts all the same: separate cues, with equal settings
+    la2 = Layout(origin=Point(Size(10, PCT), Size(10, PCT)), alignment=Alignment(None, VA.BOTTOM))
+    le1 = Layout(origin=Point(Size(10, PCT), Size(10, PCT)), extent=Stretch(Size(60, PCT), Size(20, PCT)))
+    le2 = Layout(origin=Point(Size(10, PCT), Size(10, PCT)), extent=Stretch(Size(60, PCT), Size(35, PCT)))
+    seqs += [(sq, wb) for pair in ([la, la2], [le1, le2]) for sq in itertools.product(pair, repeat=3) for wb in (True, False)]
     for seq, with_breaks in seqs:
         nodes = []
         for k, l in enumerate(seq):
